@@ -15,9 +15,11 @@ import os, sys, json, copy, decimal, hashlib, subprocess, traceback, pickle
 import lib
 from lib import gz, gtext, glist, gbool, gopt, gpair
 
-THEOREMS = ['C15_frame_derivation', 'C15_frame_verdicts', 'C15_frame_history', 'C15_fresh_simple',
-            'C15_fresh_complex', 'C15_child_attrs_keep_order', 'C15_evolution_frame',
-            'C15_propagates', 'C15_order_flat', 'C15_order_declared', 'C15_odict_keys']
+THEOREMS = ['C15_invariants_hold', 'C15_invariants_decidable', 'C15_derivation_returns_new_class',
+            'C15_frame_derivation', 'C15_frame_step', 'C15_frame_history', 'C15_frame_derivations',
+            'C15_evolution_records', 'C15_propagates', 'C15_fresh_simple', 'C15_fresh_complex',
+            'C15_customize_keeps_fields', 'C15_order_declared', 'C15_order_flat', 'C15_order_parents_first',
+            'C15_order_flat_distinct', 'C15_odict_keys']
 
 D_INF = decimal.Decimal('inf')
 
@@ -1121,15 +1123,17 @@ def run(check):
         if tag == 'gen':
             check.sample({'history': ops[:4], 'outcomes': [r[0] for r in rec[:4]]}, limit=4)
     check.extra['operations'] = kinds
-    imports = ('From SpyneV Require Import Base.Prelude C15.Model C15.Check.\nOpen Scope Z_scope.\n' + g_init_store(ns) +
+    imports = ('From SpyneV Require Import Base.Prelude C15.Model C15.Spec C15.Check.\nOpen Scope Z_scope.\n' + g_init_store(ns) +
                'Definition t0 : list snap := map (obs DEPTH s0) p0.\n')
     lib.correspond(check, 'class_store', imports, 'case', '(case_ok s0 p0 t0)', cases, shard=12,
                    show='(case_show s0 p0 t0)')
     # the initial expected table must itself agree with the implementation
     init = glist([g_snap(s) for s in World(ns).snaps()])
+    # ... and it must satisfy the hypothesis of the theorems: inv s0 (C15_invariants_decidable)
     lib.correspond(check, 'initial_pool', imports, 'list snap',
                    '(fun t => (fix eq (a b : list snap) : bool := match a, b with [] , [] => true | x :: a\', y :: b\' => '
-                   'snap_eqb x y && eq a\' b\' | _, _ => false end) t0 t)', [(init, 'initial pool')])
+                   'snap_eqb x y && eq a\' b\' | _, _ => false end) t0 t && wfb s0 && completeb s0)',
+                   [(init, 'initial pool: snapshots agree, wfb s0 = true, completeb s0 = true')])
     # schema-level frame/order on a subset (forks), hash seeds and protocol output (sub-processes)
     n_schema = 10 if tier == 'quick' else 150
     sub = all_ops[:len(corpus())] + all_ops[len(corpus()):][:n_schema]
